@@ -4,7 +4,7 @@
   `create_feature_from_location` and the search of `get_trimmed_orf`.
   One Lean function per Python function / loop, same branch order, same `<` vs `<=`.
 
-  The model is of the tree *with* fixes/D13, D28, D29 applied (reverse-strand wrapped parts in
+  The model is of the tree *with* fixes/D13, D28, D29, D57 applied (reverse-strand wrapped parts in
   transcription order; `loc_start >= loc_end` wraps; `last` never moves backwards) and
   *without* a repair of D23 (the `end - start < minimum_length` cull, pinned by the repo's own
   `test_no_hits`): the cull is transcribed as it is.
@@ -17,6 +17,7 @@
     Python `%` with a positive right operand is `Int.emod`.
 -/
 import ASV.Model.Loc
+import ASV.Model.ProtDna
 import ASV.Generated.Orf
 namespace ASV.Orf
 open ASV
@@ -186,6 +187,21 @@ def scanAreas (rec : Seq) (minLen : Int) : List (Int × Int) → Option (List Lo
       (scanAreas rec minLen rest).map (here ++ ·)
     else none
 
+/-- the `if area: … else: …` head of `find_all_orfs`: `cross` = `area.crosses_origin()`; `parts`
+    = `(start, end, genes the record lookup returned)` for the whole record / the area (one
+    entry) or for each part of an origin-crossing area -/
+def orfAreas (L : Int) (cross : Bool) (parts : List (Int × Int × List Gene)) (minLen pad : Int) :
+    Option (List (Int × Int)) :=
+  if cross then crossOriginIntergenic parts L minLen pad
+  else match parts with
+    | [p] => some (findIntergenic p.1 p.2.1 p.2.2 minLen pad)
+    | _ => none
+
+/-- `find_all_orfs` up to the creation of the features: the locations, in the order found -/
+def findAllOrfs (rec : Seq) (cross : Bool) (parts : List (Int × Int × List Gene)) (minLen pad : Int) :
+    Option (List Loc) :=
+  (orfAreas rec.length cross parts minLen pad).bind (scanAreas rec minLen)
+
 /-! ### `create_feature_from_location`: the default label -/
 
 def zeroPad (digits : Nat) (s : String) : String :=
@@ -204,12 +220,17 @@ def orfLabel (recLen : Nat) (l : Loc) : String :=
     "allorf_" ++ fmtInt digits (a.lo + 1) ++ "_" ++ fmtInt digits b.hi
   | _ => "allorf_" ++ fmtInt digits (l.start + 1) ++ "_" ++ fmtInt digits l.end
 
-/-! ### `get_trimmed_orf` (search for the latest admissible start codon) -/
+/-! ### `get_trimmed_orf` (search for the latest admissible start codon)
 
-inductive Trim where
+  Models the tree with fixes/D57 applied: the new location is
+  `get_sub_location_from_offsets(orf.location, starts[-1], len(seq))` (C09's exon walk), so the
+  trimming follows the parts in transcription order for multi-part / origin-crossing ORFs. -/
+
+/-- outcome of the search: `ValueError`, `None`, or `starts[-1]` -/
+inductive TrimSearch where
   | valueError
   | none
-  | found (start «end» : Int)
+  | start (k : Nat)
 deriving DecidableEq, Repr
 
 /-- `for i in range(start, end, 3)` collecting start codons; returns `starts[-1]` -/
@@ -217,10 +238,14 @@ def lastStart (seq : Seq) : Nat → Nat → Option Nat → Option Nat
   | 0, _, acc => acc
   | cnt + 1, i, acc => lastStart seq cnt (i + 3) (if isStart (codonAt seq i) then some i else acc)
 
-/-- `get_trimmed_orf` for a single-part ORF `[lo, hi)` on strand `fwd`; `seq` is the
-    extracted ORF (not upper-cased by the code); `incl`/`maxLen` are `None` when absent -/
-def trimmedOrf (seq : Seq) (lo hi : Int) (fwd : Bool) (incl : Option Int) (minLen : Int)
-    (maxLen : Option Int) : Trim :=
+/-- lower end of the search range: `max(0, len(seq) - (max_length - (max_length % 3)))` -/
+def trimLo (n maxLen : Int) : Int := max 0 (n - (maxLen - maxLen % 3))
+/-- upper end (exclusive): `min(len(seq) - min_length, include)` -/
+def trimHi (n minLen incl : Int) : Int := min (n - minLen) incl
+
+/-- `get_trimmed_orf` up to the construction of the new location; `seq` is the extracted ORF
+    (not upper-cased by the code); `incl`/`maxLen` are `None` when absent -/
+def trimSearch (seq : Seq) (incl : Option Int) (minLen : Int) (maxLen : Option Int) : TrimSearch :=
   let n : Int := seq.length
   let maxLen := maxLen.getD n
   let incl := incl.getD n
@@ -228,11 +253,28 @@ def trimmedOrf (seq : Seq) (lo hi : Int) (fwd : Bool) (incl : Option Int) (minLe
   else if minLen > n then .none
   else if maxLen < n - incl then .none
   else
-    let start := max 0 (n - (maxLen - maxLen % 3))
-    let «end» := min (n - minLen) incl
+    let start := trimLo n maxLen
+    let «end» := trimHi n minLen incl
     let cnt := if «end» > start then ((«end» - start + 2) / 3).toNat else 0
     match lastStart seq cnt start.toNat Option.none with
     | Option.none => .none
-    | some k => if fwd then .found (lo + k) hi else .found lo (hi - k)
+    | some k => .start k
+
+inductive Trim where
+  | valueError
+  | none
+  | found (l : Loc)
+deriving DecidableEq, Repr
+
+/-- `get_trimmed_orf(orf, record, include, min_length, max_length)`: `loc = orf.location`,
+    `seq = orf.extract(record.seq)` -/
+def trimmedOrf (seq : Seq) (loc : Loc) (incl : Option Int) (minLen : Int) (maxLen : Option Int) : Trim :=
+  match trimSearch seq incl minLen maxLen with
+  | .valueError => .valueError
+  | .none => .none
+  | .start k =>
+    match ProtDna.subLocationFromOffsets loc k seq.length with
+    | .ok l => .found l
+    | _ => .valueError
 
 end ASV.Orf
